@@ -204,9 +204,44 @@ def run(ctx: Check, tree: Tree) -> None:
                              "==": (False, True, False), "!=": (True, False, True)}[cond.op]
                     neg, zero, pos = table if sign > 0 else (table[2], table[1], table[0])
                     return {-1: neg, 0: zero, 1: pos, "nan": cond.op == "!="}
+        verdict = threshold(cond)
+        if verdict is not None and verdict[0] == "wrong":
+            problems.append(verdict[1])
+            return {-1: True, 0: True, 1: True, "nan": True}  # judged on its own (reported); neutral for the sign table
+        if verdict is not None:
+            # correct as a threshold; judged after every other condition was read (a wrong one elsewhere is still reported)
+            valid_thresholds.append(f"{fn.qual}: branch condition `{cond!r:.80}` is a decay threshold of {verdict[1]}: it only differs from `Kibble <= 0` in the crossed-channel regions, which the sign table of this rule does not describe - the indicator cannot be judged")
+            return {-1: True, 0: True, 1: True, "nan": True}
         raise AnalysisError(f"{fn.qual}: branch condition `{cond!r:.80}` is not a comparison of `Kibble(...)` with 0 (nor True): the indicator cannot be judged")
 
+    def threshold(cond):
+        """A bound on one Mandelstam variable: sigma_k >= (m_i + m_j)^2 is the lower decay threshold iff {i, j, k} = {1, 2, 3};
+        sigma_k <= (m0 - m_c)^2 the upper one iff c = k (sigma_k is the squared mass of the pair that does NOT contain k).
+        ("right" | "wrong", text) or None if the relation is not of that form."""
+        if not (isinstance(cond, Rel) and cond.op in {"<=", "<", ">=", ">"}):
+            return None
+        d = te._rf(cond.lhs) - te._rf(cond.rhs)
+        sigmas = {1: s1, 2: s2, 3: total - s1 - s2}
+        for k, sig in sigmas.items():
+            for direction, dd in ((cond.op, d), ({"<=": ">=", "<": ">", ">=": "<=", ">": "<"}[cond.op], -d)):
+                if direction in {">=", ">"}:
+                    for i, j in ((1, 2), (2, 3), (1, 3)):
+                        if equal(dd, sig - (m[i] + m[j]) ** 2):
+                            if {i, j, k} == {1, 2, 3}:
+                                return "right", f"sigma{k} (pair {i}{j})"
+                            return "wrong", f"the lower bound of sigma{k} is (m{i} + m{j})^2, but sigma{k} is the squared mass of the pair {''.join(str(x) for x in sorted({1, 2, 3} - {k}))}: physical events near the true threshold are classified outside"
+                else:
+                    for c in (1, 2, 3):
+                        if equal(dd, sig - (m[0] - m[c]) ** 2):
+                            if c == k:
+                                return "right", f"sigma{k} (spectator {c})"
+                            return "wrong", f"the upper bound of sigma{k} is (m0 - m{c})^2, but the spectator of the pair with squared mass sigma{k} is particle {k}: physical events are classified outside"
+        return None
+
+    valid_thresholds: list[str] = []
     tables = [(val, truth(cond)) for val, cond in pw.branches]
+    if valid_thresholds and not problems:
+        raise AnalysisError(valid_thresholds[0])
 
     def value_at(region):
         for val, table in tables:
